@@ -311,6 +311,22 @@ func c08Run(r *sim.Run) {
 			r.Probe("fragmented-free-variant")
 		}
 	}
+	if !e.cf.Progressive && movie == nil && variant == "" && t.Chance(150) {
+		// fragmented stream: every media data box carries bytes no sample refers to (in front of the first sample, with
+		// the data offsets of the track runs moved along, and behind the last one)
+		lead, trail := 1+t.Draw(24), t.Draw(9)
+		if nd, perr := work.PadMdat(img, lead, trail); perr == nil {
+			if f2, derr := decodeMem(nd); derr == nil {
+				top2, werr := ref.Walk(nd, 0, int64(len(nd)), true)
+				if werr != nil {
+					panic(sim.HarnessAbort{Msg: "variant not walkable: " + werr.Error()})
+				}
+				img, fm, top = nd, f2, top2
+				variant = fmt.Sprintf("media data boxes with %d leading and %d trailing unused bytes", lead, trail)
+				r.Probe("fragmented-padded-mdat")
+			}
+		}
+	}
 	cfg := sim.DrawDelivery(t)
 	faulty := t.Chance(250)
 	if faulty {
@@ -389,8 +405,11 @@ func c08Run(r *sim.Run) {
 	for op := 0; op < nops; op++ {
 		p := mp[t.Draw(len(mp))]
 		ps, pe := p.box.Payload(), p.box.End()
-		kind := t.Draw(6)
+		kind := t.Draw(7)
 		if !(e.cf.Progressive && movie != nil && fl.Moov != nil && fl.Mdat == p.lazy) && kind == 2 {
+			kind = 0
+		}
+		if kind == 6 && (cfg.TruncAt >= 0 || !c08FragInterval(r, op, fm, fl, img, disk, h, faulty)) {
 			kind = 0
 		}
 		switch kind {
@@ -450,6 +469,7 @@ func c08Run(r *sim.Run) {
 					r.Violate("c08-mem-bytes", "in-memory CopyData(%d,%d) wrote %d bytes, wrong content or count", st, sz, n2)
 				}
 			}
+		case 6: // sample interval of a fragment: done above
 		case 2: // CopySampleData on a progressive file
 			c08CopySamples(r, op, fm, fl, movie, img, disk, h, faulty, cfg.TruncAt >= 0)
 		case 3: // lazy Encode writes exactly the header; header + copied payload == original box
@@ -559,6 +579,82 @@ func c08CheckBytes(r *sim.Run, what string, st, sz int64, disk, got []byte, err 
 			r.Violate("c08-wrong-prefix", "%s(%d,%d) failed (%v) after writing %d bytes that are not a prefix of the requested range", what, st, sz, err, len(got))
 		}
 	}
+}
+
+// c08FragInterval: a sample interval of a seeded single-track, single-run fragment is asked for in both modes: the
+// in-memory answer carries the bytes, the lazy answer says where they are (offset inside the media data box and size);
+// reading that range through the handle must give the same bytes, and both must be the bytes of the file at that place.
+// false: the file has no such fragment (the caller does something else instead).
+func c08FragInterval(r *sim.Run, op int, fm, fl *mp4.File, img, disk []byte, h *sim.Handle, faulty bool) bool {
+	t := r.T
+	if fm.Init == nil || fm.Init.Moov == nil || fm.Init.Moov.Mvex == nil || fl.Init == nil || len(fm.Segments) != len(fl.Segments) {
+		return false
+	}
+	type cand struct{ si, fi int }
+	var cands []cand
+	for si, sg := range fm.Segments {
+		if len(sg.Fragments) != len(fl.Segments[si].Fragments) {
+			return false
+		}
+		for fi, fr := range sg.Fragments {
+			if fr.Moof != nil && fr.Mdat != nil && len(fr.Moof.Trafs) == 1 && len(fr.Moof.Traf.Truns) == 1 && fr.Moof.Traf.Trun.SampleCount() > 0 && fr.Moof.Traf.Tfhd != nil && fr.Moof.Traf.Tfdt != nil {
+				cands = append(cands, cand{si, fi})
+			}
+		}
+	}
+	if len(cands) == 0 {
+		return false
+	}
+	c := cands[t.Draw(len(cands))]
+	a, b := fm.Segments[c.si].Fragments[c.fi], fl.Segments[c.si].Fragments[c.fi]
+	if b.Moof == nil || b.Mdat == nil || len(b.Moof.Trafs) != 1 || len(b.Moof.Traf.Truns) != 1 {
+		return false
+	}
+	trex, ok := fm.Init.Moov.Mvex.GetTrex(a.Moof.Traf.Tfhd.TrackID)
+	if !ok {
+		return false
+	}
+	n := int(a.Moof.Traf.Trun.SampleCount())
+	first := 1 + t.Draw(n)
+	last := first + t.Draw(n-first+1)
+	var sm, sl mp4.SampleInterval
+	var em, el error
+	r.Guard("GetSampleInterval(mem)", func() { sm, em = a.GetSampleInterval(trex, uint32(first), uint32(last)) })
+	r.Guard("GetSampleInterval(lazy)", func() { sl, el = b.GetSampleInterval(trex, uint32(first), uint32(last)) })
+	r.Logf("op%d GetSampleInterval(segment %d fragment %d, samples %d..%d of %d) mem: off=%d size=%d err=%v lazy: off=%d size=%d err=%v", op, c.si, c.fi, first, last, n, sm.OffsetInMdat, sm.Size, em, sl.OffsetInMdat, sl.Size, el)
+	r.Event("GetSampleInterval", btoi(el != nil))
+	r.Probe("fragment-sample-interval")
+	if (em == nil) != (el == nil) {
+		r.Violate("c08-accept-differs", "GetSampleInterval(%d..%d) of segment %d fragment %d: in-memory says %q, lazy says %q", first, last, c.si, c.fi, errStr(em), errStr(el))
+		return true
+	}
+	if em != nil {
+		return true
+	}
+	if sm.OffsetInMdat != sl.OffsetInMdat || sm.Size != sl.Size || sm.FirstDecodeTime != sl.FirstDecodeTime || len(sm.Samples) != len(sl.Samples) {
+		r.Violate("c08-interval", "GetSampleInterval(%d..%d) of segment %d fragment %d: in-memory offset/size/time/count %d/%d/%d/%d, lazy %d/%d/%d/%d", first, last, c.si, c.fi,
+			sm.OffsetInMdat, sm.Size, sm.FirstDecodeTime, len(sm.Samples), sl.OffsetInMdat, sl.Size, sl.FirstDecodeTime, len(sl.Samples))
+		return true
+	}
+	st, sz := int64(b.Mdat.PayloadAbsoluteOffset())+int64(sl.OffsetInMdat), int64(sl.Size)
+	if st+sz > int64(len(img)) {
+		r.Violate("c08-interval", "GetSampleInterval(%d..%d): the range [%d,%d) lies beyond the file (%d bytes)", first, last, st, st+sz, len(img))
+		return true
+	}
+	if sl.OffsetInMdat > 0 {
+		r.Probe("fragment-interval-not-at-payload-start")
+	}
+	if !bytes.Equal(sm.Data, img[st:st+sz]) {
+		r.Violate("c08-mem-bytes", "GetSampleInterval(%d..%d) of segment %d fragment %d in memory returned %d bytes that are not the bytes [%d,%d) of the file which the lazy mode points to (first diff at %d)", first, last, c.si, c.fi, len(sm.Data), st, st+sz, firstDiff(sm.Data, img[st:st+sz]))
+		return true
+	}
+	if sz > 0 {
+		var got []byte
+		var err error
+		r.Guard("ReadData(lazy interval)", func() { got, err = b.Mdat.ReadData(st, sz, h) })
+		c08CheckBytes(r, "ReadData", st, sz, disk, got, err, faulty, h, false)
+	}
+	return true
 }
 
 func c08CopySamples(r *sim.Run, op int, fm, fl *mp4.File, movie *ref.MovieInfo, img, disk []byte, h *sim.Handle, faulty, truncated bool) {
